@@ -5,20 +5,6 @@ From GLMM Require Import Half IntFn BitUtil.
 From W Require Import A_C18_defs.
 Local Open Scope Z_scope.
 Ltac Zify.zify_post_hook ::= Z.div_mod_to_equations.
-Lemma norm_id sg w z : 0 < w -> in_T sg w z = true -> norm sg w z = z.
-Proof.
-  intros Hw H. rewrite norm_mod by lia. cbv zeta. unfold in_T in *.
-  assert (P : 2 ^ w = 2 * 2 ^ (w - 1)) by (replace w with (Z.succ (w - 1)) at 1 by lia; apply Z.pow_succ_r; lia).
-  assert (Q : 0 < 2 ^ (w - 1)) by (apply Z.pow_pos_nonneg; lia).
-  destruct sg; cbn [andb] in *.
-  - apply andb_true_iff in H as [H1 H2]. apply Z.leb_le in H1. apply Z.ltb_lt in H2.
-    destruct (Z_lt_le_dec z 0).
-    + replace (z mod 2 ^ w) with (z + 2 ^ w) by (apply Z.mod_unique with (-1); lia).
-      replace (2 ^ (w - 1) <=? z + 2 ^ w) with true by (symmetry; apply Z.leb_le; lia). lia.
-    + rewrite Z.mod_small by lia. replace (2 ^ (w - 1) <=? z) with false by (symmetry; apply Z.leb_gt; lia). reflexivity.
-  - apply andb_true_iff in H as [H1 H2]. apply Z.leb_le in H1. apply Z.ltb_lt in H2. apply Z.mod_small; lia.
-Qed.
-
 (* the specification functions are what their names say *)
 Lemma ceil_mult_spec s m : 0 < m -> (m | ceil_mult s m) /\ s <= ceil_mult s m < s + m.
 Proof.
